@@ -214,13 +214,12 @@ pub struct StepObs {
 /// `check_mem`: full memory comparison (otherwise the caller audits memory per batch).
 pub fn diff_step(bench: &mut Bench, m: &Machine, p: &mut Prepared, pre: &RefM, check_mem: bool) -> StepObs {
     bench.load(pre);
-    p.ictx.call_stack.clear();
-    p.ictx.call_stack.extend_from_slice(&pre.call_stack);
+    cs_set(&mut p.ictx, &pre.call_stack);
     let horizon = pre.r.cx as usize + 3;
     let (exec, calls) = m.exec_repeat(p.idx, &mut bench.vm, &mut p.ictx, &p.line, horizon);
     let regs = Regs::from_vm(&bench.vm);
     let rs = step(&p.instr, pre, &p.dc, p.idx);
-    let stack: Vec<usize> = p.ictx.call_stack.clone();
+    let stack: Vec<usize> = cs_get(&p.ictx);
     let mut best = compare_one(p, &exec, &regs, &stack, &rs.outcome, &rs.post, rs.undef, pre);
     let mut mem_expect = if rs.outcome == Outcome::DivErr { &pre.m } else { &rs.post.m };
     if !best.is_empty() {
